@@ -1,9 +1,10 @@
-"""System V variants of PSemaphore / PShm (psemaphore-sysv.c, pshm-sysv.c): API-level differential against the SPEC
-column of the IPC driver (PV.Spec.IPC).  There is no System V model: a difference is judged implementation(sysv) vs
-spec view only (concrete replay), never as a correspondence break.
+"""System V variants of PSemaphore / PShm (psemaphore-sysv.c, pshm-sysv.c): differential against the SPEC column of
+the IPC driver (PV.Spec.IPC) and against the MODEL column of `pvdriver ipcsysv` (PV.Model.IPCSysV).  Implementation vs
+spec view -> concrete replay (violation, or KNOWN-FINDING by signature); implementation vs model only -> correspondence
+break -> `no-failing-input-found` (conclude_tie) unless a concrete replay was reported as well.
 
-harness/ipc_sysv.c is harness/ipc.c reduced to the public API (no system-call wrappers) and linked with the sysv files
-instead of the posix ones.  The spec view of a history is what the driver's spec says, minus what the property
+harness/ipc_sysv.c is the server / worker layout of harness/ipc.c linked with the sysv files instead of the posix ones;
+every system call of an op is logged through link-time wrappers.  The spec view of a history is what the driver's spec says, minus what the property
 statements do not determine for a System V implementation (class `Region`, every rule names its reason):
 
   T1  acquire/release through a semaphore handle opened before a later CREATE-mode open or owner free of its name
@@ -38,8 +39,9 @@ NW, NN, NH, PAGE = ipc.NW, ipc.NN, ipc.NH, ipc.PAGE
 SEMVMX = 32767
 
 ASSUMPTIONS = [
-    "System V variants (psemaphore-sysv.c, pshm-sysv.c): no model; they are tied by an API-level differential against the spec of C06/C07 only (harness/ipc_sysv.c links them instead of the posix files; no system-call traces, EINTR scripts or crash points inside a call; their function bodies are not pinned by the translator)",
-    "System V contract (trusted): semget/shmget with IPC_CREAT|IPC_EXCL is an atomic test-and-create on the key, semop is atomic, IPC_RMID removes a set at once and a segment at its last detach, ftok keys of the key files in use do not collide (16 inode bits + 8 device bits)",
+    "System V variants (psemaphore-sysv.c, pshm-sysv.c, key files of pipc.c): model PV.Model.IPCSysV over an abstract System V machine, theorems PV.Props.C06sysv / C07sysv; every function body is pinned by the translator (Generated/IPCSysV: flags, commands, errno tests, sembuf objects, call-site order); harness/ipc_sysv.c links them instead of the posix files and logs every system call (-Wl,--wrap): each answer line is compared with the model column (correspondence) and, API view, with the spec column",
+    "System V contract (trusted): semget/shmget with IPC_CREAT|IPC_EXCL is an atomic test-and-create on the key, semop is atomic, IPC_RMID removes a set at once and a segment at its last detach, ftok keys of the key files in use do not collide (16 inode bits + 8 device bits; the model takes ftok = inode number), SETVAL clears the SEM_UNDO adjustments, a dead id answers EINVAL (EIDRM only for a sleeper), permission checks never fail (the check runs as root)",
+    "System V model: whether a new key file gets the inode number of an unlinked one is an oracle of the model (OS.reuse); histories on the inode-reusing file system are tied to the model only for the recorded finding F15, the others run on tmpfs (no reuse)",
     "System V build: key files in $TMPDIR (the harness builds the library with glibc's P_tmpdir undefined so that p_ipc_unix_get_temp_dir honours $TMPDIR; campaigns run in a private tmpfs directory, the inode-reuse probe in a private directory of the check's cache)",
     "System V: counter values are limited to SEMVMX = 32767 (semctl SETVAL fails with ERANGE above): histories use initial values <= 300",
     "System V: not judged because the statements do not determine it (rules T1-T3, U1-U4 of tools/props/ipc_sysv.py): handles opened before a CREATE-mode open / owner free of their name; plain free of a CREATE-on-existing handle; removal of a segment at its last detach; plain free of the creating PShm handle while others are attached; owner handles of an earlier incarnation",
